@@ -28,6 +28,8 @@ using B4_row = na::ndarray_t<utl::static_vector<unsigned,4>, utl::static_vector<
 using B4_col = na::column_major_ndarray_t<utl::static_vector<unsigned,4>, utl::static_vector<size_t,3>>;
 using C4_row = na::ndarray_t<std::vector<unsigned>, std::vector<size_t>>;
 using A3_row = na::ndarray_t<utl::static_vector<unsigned,CAPN>, std::array<size_t,3>>;                    // bounded buffer, fixed dim 3
+using F_row  = na::ndarray_t<std::array<unsigned,4>, utl::static_vector<size_t,3>>;                         // FIXED buffer of 4 cells, bounded dim <= 3: only shapes with exactly 4 elements fit
+using F_col  = na::column_major_ndarray_t<std::array<unsigned,4>, utl::static_vector<size_t,3>>;
 
 // observe one ndarray_t object: dim, shape, strides(), logical buffer length, buffer contents
 template <typename A>
@@ -73,6 +75,8 @@ HIST_ND(k_hist_C_col, C_col)
 HIST_ND(k_hist_A3_row, A3_row)
 HIST_ND(k_hist_B4_row, B4_row)
 HIST_ND(k_hist_B4_col, B4_col)
+HIST_ND(k_hist_F_row, F_row)
+HIST_ND(k_hist_F_col, F_col)
 
 // ---------------------------------------------------------------- legacy classes
 // hybrid_ndarray<unsigned,8,2>: op 0 resize(a,b)  1 x[t](i,j) = v  2 assign other  3 copy-construct+assign  4 self-assign
